@@ -5,6 +5,7 @@
 #include <sstream>
 
 #include "world.hpp"
+#include "tstate.hpp"
 
 namespace djsim
 {
@@ -448,6 +449,8 @@ FullObs World::observe()
     }
     for (auto& l : o.name_lookups)
         o.lookups.emplace_back(l.kind + ":" + std::to_string(l.crate) + ":" + rs(l.name), l.result);
+    if (v2 && tstate && tstate->lib && plan.cfg.profile.compare(0, 6, "atomic") == 0)
+        o.table_digest = table_digest();
     flush_nonstd(*this, "database");
     if (g_taps.tick_watchdog_fired)
     {
@@ -463,6 +466,8 @@ FullObs World::observe()
 std::string FullObs::serialize() const
 {
     std::string s;
+    if (!table_digest.empty())
+        s += "table-api-digest=" + table_digest + "\n";
     s += "uuid=" + uuid_token + "\nversion=" + version + "\ndir=" + directory +
          "\ntracks=" + tracks + "\ncrates=" + crates + "\nroots=" + roots + "\n";
     for (auto& kv : track)
